@@ -41,6 +41,8 @@ def observe(seq, case=None):
         out["ppii_" + mode] = o.get_PPII_propensity(mode)
     out["ppii_default"] = o.get_PPII_propensity()
     out["ppii_upper"] = o.get_PPII_propensity("HILSER")
+    for mode, spelt in (("creamer", "Creamer"), ("kallenbach", "KALLENBACH"), ("creamer", "cREAMER"), ("kallenbach", "Kallenbach"), ("hilser", "Hilser")):
+        out["ppii_case:" + spelt] = o.get_PPII_propensity(spelt)
     out["fractions"] = o.get_amino_acid_fractions()
     return out
 
@@ -62,6 +64,10 @@ def check_seq(ctx, case):
                   "get_PPII_propensity(%r)=%r, reference %r" % (mode, got["ppii_" + mode], want["ppii_" + mode]), case)
     ctx.check(ref.close(got["ppii_default"], want["ppii_hilser"]), "ppii-default", "default PPII mode is not 'hilser'", case)
     ctx.check(ref.close(got["ppii_upper"], want["ppii_hilser"]), "ppii-case", "PPII mode name is not case-insensitive", case)
+    for k in got:
+        if k.startswith("ppii_case:"):
+            mode = k.split(":")[1].lower()
+            ctx.check(ref.close(got[k], want["ppii_" + mode]), "ppii-case", "get_PPII_propensity(%r)=%r, the %s scale gives %r" % (k.split(":")[1], got[k], mode, want["ppii_" + mode]), case)
     fr = got["fractions"]
     ctx.check(isinstance(fr, dict) and sorted(fr) == sorted(ref.AA), "fractions-keys", "get_amino_acid_fractions() keys %r" % (sorted(fr) if isinstance(fr, dict) else fr,), case)
     for a in ref.AA:
@@ -94,6 +100,9 @@ def enum_cases(tier, seed):
 
 @st.composite
 def hyp_case(draw, max_len):
+    if draw(st.integers(0, 11)) == 0:
+        s = draw(gens.long_charged(129, 500))
+        return {"seq": s, "perm": s[::-1], "warm": []}
     warm = draw(gens.warmups())
     s = draw(gens.sequences(max_len=40 if warm else max_len))
     return {"seq": s, "perm": "".join(draw(st.permutations(list(s)))), "warm": warm}
